@@ -166,3 +166,13 @@ def check_compress_table(ctx, inst_idem, inst_refuse):
                 ctx.ok(inst, ctx.site(b), 'compress() on a %s element: %s' % (vname, sorted(outs)))
         else:
             ctx.fail(inst, ctx.site(b), 'compress() on a %s element gives %s, expected %s' % (vname, sorted(outs), sorted(want)), key='%s|%s' % (inst, vname))
+
+
+_check_before_errflow = check
+
+
+def check(ctx):
+    _check_before_errflow(ctx)
+    # C13.7 error discipline: no error of a fallible call is turned into "absent / false / default" outside the reviewed table
+    from .. import errflow
+    errflow.check(ctx, 'C13.7', ['src/extension/compress.rs', 'src/base/elide.rs'], 'compression / obscuring family')
